@@ -3666,13 +3666,20 @@ class FuncS(ValueFunc):
                 if base != 10:
                     value = f"{int(value):x}"
                 elif digits != -1:
-                    value = str(round(float(value), digits))
+                    if value.lstrip("-").isdecimal():
+                        value = value + ".0"    # an int stays exact
+                    else:
+                        # rendered like any decimal: never with an exponent
+                        value = str(ValueDecimal(round(float(value), digits)))
             except (ValueError, OverflowError):
                 raise CklRuntimeError(
                     ValueString("ERROR"),
                     "Cannot format " + value + " as a number",
                     pos,
                 )
+            if zeroes and value.startswith("-"):
+                # the zeroes go between the sign and the digits
+                value = "-" + value[1:].rjust(width - 1, "0")
             while len(value) < width:
                 if leading:
                     value = " " + value
